@@ -13,14 +13,23 @@
 (***************************************************************************)
 EXTENDS Integers, Sequences, FiniteSets, TLC, Json, IOUtils
 
-ChainComponents == {"pool", "bat", "ss", "cc", "loss", "votes", "lnv", "sigs", "keys"}
+ChainComponents == {"pool", "bat", "ss", "cc", "loss", "votes", "lnv", "sigs"}
 Counters == {"txid", "bn", "seq", "ssn", "lon", "lohc", "lohe"}
 GlobalComponents == {"bal", "sup", "st", "fr", "tok", "stk", "tot", "h"}
 OracleComponents == {"ep", "pr", "hold", "att", "claims"}
 
 \* names of the components in which two projected states differ
+\* delegate keys: the current bindings (validator -> external address, that address -> orchestrator, that
+\* orchestrator -> validator) and, separately, the stale entries a re-registration leaves behind (an old orchestrator
+\* keeps acting for its validator)
+Current(k) == [v \in DOMAIN k.ve |->
+                 LET e == k.ve[v]
+                     o == IF e \in DOMAIN k.eo THEN k.eo[e] ELSE ""
+                 IN <<e, o, IF o \in DOMAIN k.ov THEN k.ov[o] ELSE "">>]
 Differs(a, b) ==
        UNION {{<<comp, c>> : comp \in {comp \in ChainComponents : a.ch[c][comp] # b.ch[c][comp]}} : c \in DOMAIN a.ch}
+  \cup {<<"keys", c>> : c \in {c \in DOMAIN a.ch : Current(a.ch[c].keys) # Current(b.ch[c].keys)}}
+  \cup {<<"keys.stale", c>> : c \in {c \in DOMAIN a.ch : Current(a.ch[c].keys) = Current(b.ch[c].keys) /\ a.ch[c].keys # b.ch[c].keys}}
   \cup UNION {{<<"cnt." \o k, c>> : k \in {k \in Counters : a.ch[c].cnt[k] # b.ch[c].cnt[k]}} : c \in DOMAIN a.ch}
   \cup {<<comp, "">> : comp \in {comp \in GlobalComponents : a[comp] # b[comp]}}
   \cup {<<"or." \o comp, "">> : comp \in {comp \in OracleComponents : a["or"][comp] # b["or"][comp]}}
